@@ -368,10 +368,24 @@ class Flow:
                     work.append(dst)
                     inq.add(dst)
         self.IN = IN
+        # a for-loop's iterable is evaluated once, on entry: definitions made in its own body do not reach it
+        self.IN_entry = {}
+        for n in cfg.nodes:
+            if n.kind == "for":
+                body = cfg.loops.get(n.id, set())
+                acc = {}
+                for p, label in cfg.pred[n.id]:
+                    if p in body:
+                        continue
+                    for var, ids in transfer(p, IN[p], label).items():
+                        acc[var] = acc.get(var, frozenset()) | ids
+                self.IN_entry[n.id] = acc
 
-    def reaching(self, var, at):
-        """Definitions of var reaching the *entry* of cfg node `at`."""
-        return [self.defs[i] for i in sorted(self.IN[at].get(var, ()))]
+    def reaching(self, var, at, loop_entry=False):
+        """Definitions of var reaching the *entry* of cfg node `at` (for a for-node with
+        loop_entry: reaching the evaluation of its iterable)."""
+        src = self.IN_entry[at] if loop_entry and at in self.IN_entry else self.IN[at]
+        return [self.defs[i] for i in sorted(src.get(var, ()))]
 
     def possibly_unbound(self):
         """(name, ast Name node, cfg node id) for local reads that an 'unbound' or 'del'
@@ -406,10 +420,13 @@ class Flow:
     # -- canonical terms ----------------------------------------------------------
     def canon(self, expr, at=None, env=None):
         """Canonical term of ast expression `expr` evaluated at cfg node `at`
-        (default: the node owning the expression)."""
+        (default: the node owning the expression).  The iterable of a for statement is
+        canonicalised as evaluated on loop entry."""
         if at is None:
             at = self.cfg.node_for(expr)
-        return self._canon(expr, at, env or {}, ())
+        node = self.cfg.nodes[at]
+        le = node.kind == "for" and any(x is expr for x in ast.walk(node.ast.iter))
+        return self._canon(expr, at, env or {}, (), loop_entry=le)
 
     def _site(self, node):
         return (getattr(node, "lineno", 0), getattr(node, "col_offset", 0))
@@ -459,8 +476,8 @@ class Flow:
                 return False
         return True
 
-    def _var_term(self, var, at, env, stack):
-        ds = self.reaching(var, at)
+    def _var_term(self, var, at, env, stack, loop_entry=False):
+        ds = self.reaching(var, at, loop_entry)
         live = [d for d in ds if d.kind not in ("unbound",)]
         if len(live) == 1 and len(ds) >= 1:
             d = live[0]
@@ -476,7 +493,7 @@ class Flow:
                 t = self._canon(d.value, d.node, {}, stack + (d.id,))
                 return self._apply_path(t, d.path)
             if d.kind == "for":
-                it = self._canon(d.value, d.node, {}, stack + (d.id,))
+                it = self._canon(d.value, d.node, {}, stack + (d.id,), loop_entry=True)
                 return self._apply_path(("iter", self._site(d.ast), it), d.path)
             if d.kind == "except":
                 return ("excvar", self._site(d.ast))
@@ -484,8 +501,8 @@ class Flow:
                 return ("withvar", self._site(d.ast))
         return ("var", var, tuple(d.id for d in ds))
 
-    def _canon(self, e, at, env, stack):
-        c = lambda x: self._canon(x, at, env, stack)
+    def _canon(self, e, at, env, stack, loop_entry=False):
+        c = lambda x: self._canon(x, at, env, stack, loop_entry)
         if e is None:
             return None
         if isinstance(e, ast.Constant):
@@ -494,7 +511,7 @@ class Flow:
             if e.id in env:
                 return env[e.id]
             if e.id in self.locals:
-                return self._var_term(e.id, at, env, stack)
+                return self._var_term(e.id, at, env, stack, loop_entry)
             t = self.repo.resolve_name(self.fi.module, e.id)
             if t is None:
                 return ("unresolved", e.id)
@@ -516,7 +533,7 @@ class Flow:
                     self.self_name not in env:
                 var = "self." + e.attr
                 if var in self._attr_vars:
-                    t = self._var_term(var, at, env, stack)
+                    t = self._var_term(var, at, env, stack, loop_entry)
                     if t[0] == "entryattr":
                         return ("attr", ("param", self.self_name), e.attr)
                     return t
